@@ -18,7 +18,8 @@ K == {"argparse", "class", "function"}
 
 SyncInv == [cmd : {"sync"}, truth : K \cup {"none"}, file : [K -> FileArg], name : [K -> BOOLEAN]]
 PropInv == [cmd : {"sync_properties"}, input : FileArg, output : FileArg, params : BOOLEAN]
-GenInv  == [cmd : {"gen"}, output : FileArg, flags : BOOLEAN]
+\* spelling: the output file named plainly or with an unexpanded `~` (which file is meant does not depend on the spelling)
+GenInv  == [cmd : {"gen"}, output : FileArg, flags : BOOLEAN, spelling : {"plain", "tilde"}]
 
 NFiles(i) == Cardinality({k \in K : i.file[k] # "none"})
 
